@@ -382,6 +382,14 @@ class FnOverlay:
             ob.append({"id": tag, "unit": unit, "kind": "decreases", "text": _norm_ws(decreases)})
         return self
 
+    def before_loop(self, n, text, tag_kind="assert"):
+        """Insert proof text right before loop #n (anchor = the loop's ordinal, independent of its text)."""
+        loops = self.it["loops"]
+        if n >= len(loops):
+            raise AnchorLost(f"fn {self.path}: loop #{n} not found (has {len(loops)})")
+        self._proof(loops[n]["start"], text, tag_kind)
+        return self
+
     def loop_iter_name(self, n, name):
         """`for p in E` => `for p in NAME: E` (Verus naming of the ghost iterator; pure naming)."""
         lp = self.it["loops"][n]
